@@ -1045,3 +1045,11 @@ def replay(rec):
 
 def translate_quiet():
     _run(["/venv/bin/python", os.path.join(VERIF, "tx", "tx_c13.py")], cwd=VERIF)
+
+
+CLAIM = {
+    "tech": "Coq proof over a Gallina model of slide/notes creation from layouts (placeholder cloning, naming, inherited geometry) generic in the literal tables, which a translator re-extracts from the source each run; extracted-model correspondence on every corpus layout and generated layouts + independent oracle",
+    "text": "38 theorems closed under the global context, for ANY tables and ANY deck state: the new slide's placeholders mirror the layout's non-latent ones (type, idx, orientation, size, order), names and ids are fresh (the naming loop's fuel is proved sufficient), geometry is inherited from the first layout placeholder with the same idx (own value after a set), the slide is last and related to its layout, everything else is unchanged, notes slides mirror the notes master; the exact guard under which add_slide / the geometry getters raise KeyError is characterised from the regenerated tables (C13_partial_maps_exact). The model is tied to slide.py / shapetree.py / placeholder.py by running histories on all 177 corpus layouts and ~500 generated layout populations on the real library and on the extracted model (0 diffs), and by an oracle on raw lxml.",
+    "note": "tables (latent types, base names, layout->master type map, txBody types, templates) come from tx/tx_c13.py (trusted to transcribe, fail-closed); non-sp placeholders on layouts, shapes inside groups and damaged packages (missing_rels_item.pptx) are outside the model; duplicate idx within one layout is the property's side condition (first match wins, proved and exercised).",
+    "ref": "6/C13",
+}
